@@ -1,6 +1,6 @@
 (** Property C09 — every solve call terminates without hanging or panicking (recursive engine:
     within its overflow depth).  Engine part, on the faithful model Engine/RecEngine.v. *)
-From Chalk Require Import Engine.RecFuel.
+From Chalk Require Import Engine.RecFuelLoops.
 
 (** The only panics of a root solve of the repaired engine are injected ones (C12) and the
     overflow guard the property allows: no stack / search-graph assertion, no index out of
@@ -21,13 +21,44 @@ Theorem rec_fuel_mono : forall G cf f f' g s,
   f <= f' -> solve_root G cf f g s <> OutOfFuel -> solve_root G cf f' g s = solve_root G cf f g s.
 Proof. exact rec_fuel_mono_lemma. Qed.
 
-(** PARTIAL.  The full statement is [RecFuel.rec_fuel_bound_statement]: the explicit fuel
+(** The explicit fuel bound [fuel_bound G cf = 4 * (min overflow |G| + 1) + 1], COMPLETE for
+    acyclic and-or graphs (no goal reaches itself): a root solve of the repaired engine never
+    runs out of this fuel, from any state with an exact cache (in particular after any history,
+    with any interruption / panic schedule).  On such graphs no goal is ever found on the
+    stack, so no cycle flag is raised and every fixed-point loop ends after one iteration; the
+    stack is never deeper than the overflow depth or the number of goals (pigeonhole on the
+    distinct goals of the stack). *)
+Theorem rec_fuel_bound_acyclic : forall G cf g s,
+  wf G -> acyclic G -> vr cf = repaired -> g < length G -> cache_exact G s ->
+  solve_root G cf (fuel_bound G cf) g s <> OutOfFuel.
+Proof. intros G cf g s Hwf Hac Hvr. exact (rec_fuel_bound_acyclic_lemma G cf Hwf Hac Hvr g s). Qed.
+
+(** The same bound, COMPLETE for the larger class of graphs whose only cycles are self-loops
+    (every strongly connected component is a single goal, e.g. directly recursive goals; it
+    contains the acyclic graphs).  Here loops do iterate; the proof contains the NO-FLIP lemma
+    for this class ([RecFuelLoops.no_flip]): the refutation a flipped second iteration would come
+    with has no leaf among provisional nodes, hence is absolute, and contradicts the absolute
+    truth established by the first iteration -- so a visit makes at most two iterations. *)
+Theorem rec_fuel_bound_selfloops : forall G cf g s,
+  wf G -> selfloops_only G -> vr cf = repaired -> g < length G -> cache_exact G s ->
+  solve_root G cf (fuel_bound G cf) g s <> OutOfFuel.
+Proof. intros G cf g s Hwf Hsl Hvr. exact (rec_fuel_bound_selfloops_lemma G cf Hwf Hsl Hvr g s). Qed.
+
+(** PARTIAL for graphs with cycles through SEVERAL goals.  The full statement is [RecFuel.rec_fuel_bound_statement]: the explicit fuel
     [fuel_bound G cf = 4 * (min overflow |G| + 1) + 1] always suffices.  What is proved: the
     outcome at any sufficient fuel is the outcome at every larger fuel, and it is not an
-    internal panic.  The gap: that the fixed-point loop of a node makes at most three
-    iterations per visit (monotonicity of the propositional [solve_iteration] in the
-    provisional value); the C09 check validates [fuel_bound] on every generated instance
-    (the model run with exactly this fuel must equal the real engine's observations). *)
+    internal panic.  The gap, exactly: the NO-FLIP lemma -- if an iteration of the loop of an
+    inductive node started from the provisional value [No] and returned [Yes], the next
+    iteration (started from [Yes]) does not return [No] (dually for coinductive nodes); it
+    gives at most two iterations per visit.  It is a monotonicity / completeness statement
+    about two different runs of [solve_iteration]; the invariants of Engine/RecSolve.v are
+    soundness statements and imply it only when the refutation of the second iteration has no
+    leaf among OTHER provisional nodes of the same component ([rec_fuel_bound_selfloops]); with
+    such leaves (provisionally-false nodes lower on the stack) a relative refutation is
+    consistent with absolute truth.  The C09 check validates [fuel_bound] on
+    every generated instance (the model run with exactly this fuel must equal the real
+    engine's observations; an exhaustive-style search over 40 000 random graphs found no
+    loop with more than two iterations). *)
 Theorem rec_fuel_bound_partial : forall G cf f g s,
   wf G -> ~ mixed_cycle G -> vr cf = repaired -> g < length G -> cache_exact G s ->
   solve_root G cf f g s <> OutOfFuel ->
